@@ -241,3 +241,17 @@ Qed.
 
 Theorem read_back ns t : ~ In 46 ns -> wf_ty ns t -> no_clash ns t -> read_ty ns (write_ty ns t) = Some t.
 Proof. intros Hns W N. rewrite (read_write ns t W), (canon_id ns Hns t W N). reflexivity. Qed.
+
+(* the digits of '%d' % n *)
+Lemma dec_spec n : dec n <> [] /\ forallb is_digit (dec n) = true /\ dval (dec n) = n.
+Proof.
+  unfold dec.
+  assert (Hn : n < 10 ^ N.of_nat (S (N.to_nat (N.log2 n)))).
+  { rewrite Nat2N.inj_succ, N2Nat.id.
+    destruct (N.eq_dec n 0) as [->|Hz]; [simpl; lia|].
+    assert (H2 : n < 2 ^ N.succ (N.log2 n)) by (apply N.log2_spec; lia).
+    assert (H10 : 2 ^ N.succ (N.log2 n) <= 10 ^ N.succ (N.log2 n)) by (apply N.pow_le_mono_l; lia).
+    lia. }
+  destruct (dec_fuel_spec _ n [] (PeanoNat.Nat.lt_0_succ _) Hn) as (ds & E & Hne & Hdig & Hv).
+  rewrite E, app_nil_r. repeat split; assumption.
+Qed.
